@@ -103,7 +103,8 @@ def materialise(bench, k, m, c, rng):
   elif indexed:
     arr = np.asarray(idx).copy()
   elif nd == 0:
-    arr = np.float64(1.0)
+    # a 0-D input in any of its spellings: Python number, numpy scalar, 0-d ndarray
+    arr = [1.0, np.float64(1.0), np.array(1.0), np.zeros(())][int(rng.integers(4))]
   elif nd == 1:
     arr = np.arange(4) if prep else np.array([1.0, 2.0, 3.0, 4.0])
   elif nd == 2:
@@ -125,6 +126,8 @@ def materialise(bench, k, m, c, rng):
         arr = arr[..., :-1]
       elif c['drel'] == 'more':
         arr = np.concatenate([arr, arr[..., :1] + 1.0], axis=-1)
+      elif c['drel'] == 'one':
+        arr = arr[..., :1]                  # a single feature (the benches are fitted on >= 2)
     if c['empty'] == 'samples':
       arr = arr[:0]
       if labels is not None:
